@@ -104,6 +104,14 @@ def m_cell_set(ex, f, a): ex.deref(a[0]).v = a[1]; return UNIT
 def m_cell_replace(ex, f, a): c = ex.deref(a[0]); old = c.v; c.v = a[1]; return old
 
 # ----------------------------------------------------------------------------- Option / Result
+@pattern(r'ParseIntError::kind$')
+def m_parse_int_error_kind(ex, f, a):
+    """core::num::IntErrorKind { Empty, InvalidDigit, PosOverflow, NegOverflow, Zero }; the str::parse model records which one"""
+    e = ex.deref(a[0]); k = getattr(e, 'kind', None)
+    if k is None: raise Unsupported('ParseIntError without a recorded kind')
+    cell = {0: Agg('core::num::IntErrorKind', ['Empty', 'InvalidDigit', 'PosOverflow', 'NegOverflow', 'Zero'].index(k), [])}
+    return Ref(cell, 0)
+
 @pattern(r'^core::bool::<impl bool>::then_some(::<.*>)?$|^bool::then_some(::<.*>)?$')
 def m_bool_then_some(ex, f, a): return some(a[1]) if ex.branch_bool(a[0]) else NONE()
 @pattern(r'^core::bool::<impl bool>::then(::<.*>)?$|^bool::then(::<.*>)?$')
